@@ -58,6 +58,10 @@ CHECKS = {
     "C20": ("translation_validation", "6 (C20)", "symbolic translation validation (z3) of nested DAG calls vs. plain-Python inlining",
             "Nesting depth <= 3, inner signatures (1..2 required, 0..2 defaulted), supplied argument counts, constants or results as arguments, return shapes single/tuple/list/dict used by index, unpack, pass-on or "
             "returned whole, inner nodes with keyword / indexed arguments and own flags, shared function names in outer and inner DAG: result terms equal inlining; any build failure is a violation.", TB_REAL),
+    "C19": ("translation_validation", "6 (C19)", "symbolic translation validation (z3) of compose(): composed DAG vs. the original program with substituted input values",
+            "All shapes with N=3 (N=4 thorough) x root sources (required / defaulted DAG argument, constant) x one feature (indexed use, keyword use, activation edge, alias form) x inputs (Ellipsis, [], singletons, pairs, "
+            "original argument, shared tag) x outputs: result terms equal the substituted reference, exactly the needed nodes run, setup results are taken from the original, error cases raise ValueError, "
+            "the original DAG (results, node table, graph) is unchanged and can be composed again.", TB_REAL),
 }
 
 NA_REASON = "check not built yet (work in progress)"
